@@ -1,9 +1,17 @@
 import KvarnModel.Drv.Util
+import KvarnModel.QueryIter
 import KvarnModel.UrlCrawl
 namespace Drv.C02
 open Wire Drv UrlCrawl
 
 def handle : List String → Option String
+  -- qiter <pairs before> <pairs of the name> <pairs after> [f,b,…] : QueryPairIter driven from both ends
+  | ["qiter", n0, na, nb, ds] => do
+    let n0 ← n0.toNat?; let na ← na.toNat?; let nb ← nb.toNat?
+    let dirs ← (← parseList ds).mapM fun d => if d = "f" then some QueryIter.Dir.front else if d = "b" then some QueryIter.Dir.back else none
+    pure (match QueryIter.drive (List.range (n0 + na + nb)) ⟨n0, n0 + na⟩ dirs with
+      | none => "panic"
+      | some (f, b, _) => s!"front={listStr (f.map fun i => toString (i - n0))} back={listStr (b.map fun i => toString (i - n0))}")
   -- crawl <html> : the urls `url_crawl::get_urls` yields
   | ["crawl", h] => do
     pure (match getUrls (← bytesOfHex h) with
